@@ -85,7 +85,21 @@ def run(prop, tier):
                 p = os.path.join(cdir, "rate_ulp_%d_%s.c3d" % (k, "m" if delta < 0 else "p"))
                 open(p, "wb").write(c3dref.encode(content, {}))
                 ulp.append(p)
-        allfiles = paths + c12 + longz + ulp
+        # files whose RESERVED header words (13..147 and 235..256) are not zero: the library carries them as four integers read from 270 / 44
+        # bytes at once, i.e. through arithmetic far outside the integer range; whatever it makes of them must not depend on the build
+        import random as _random
+        resv = []
+        for k in range(6):
+            content, L, meta = gen.gen_case(C.seed(), 992000 + k)
+            b = bytearray(c3dref.encode(content, {}))
+            rr = _random.Random(C.seed() * 31 + k)
+            for off in list(range(24, 294)) + list(range(468, 512)):
+                if k < 2 or rr.random() < 0.3:
+                    b[off] = rr.randint(1, 255)
+            p = os.path.join(cdir, "reserved_words_%d.c3d" % k)
+            open(p, "wb").write(bytes(b))
+            resv.append(p)
+        allfiles = paths + c12 + longz + ulp + resv
         lst = os.path.join(wd, "all.txt")
         open(lst, "w").write("\n".join(allfiles) + "\n")
         import damage
@@ -105,6 +119,7 @@ def run(prop, tier):
         nfp = 96 if q else 600
         C.run_driver(exes[0], "limits", 1, os.path.join(wd, "count1"), args=["--count", "1", "--pairs", "0"], workers=1)
         nlim = int(C.parse_out(os.path.join(wd, "count1")).lines["RES"][0][1].split()[2])      # the single-limit cases of C17 (values at, beyond and far beyond every capacity limit, e.g. INT_MIN)
+        HEAPFILLS = (85, 170)
         def runcfg(i):
             o1 = os.path.join(wd, "h_" + names[i])
             o2 = os.path.join(wd, "f_" + names[i])
@@ -114,6 +129,13 @@ def run(prop, tier):
             C.run_driver(exes[i], "limits", nlim, os.path.join(wd, "l_" + names[i]), args=["--pairs", "0", "--timeout", "600"], workers=nper, chunk=4)
             if names[i] != NOGUARD:
                 C.run_driver(exes[i], "damage", len(dspecs), os.path.join(wd, "d_" + names[i]), args=["--list", dlst, "--timeout", "60"], workers=nper, chunk=100)
+            if i == 0:
+                # the first configuration twice more with another heap fill byte (glibc MALLOC_PERTURB_): a result that depends on memory the
+                # library never wrote is the usual way builds come to differ; the fill byte exposes it without waiting for luck
+                for fill in HEAPFILLS:
+                    env = {"MALLOC_PERTURB_": str(fill)}
+                    C.run_driver(exes[i], "damage", len(dspecs), os.path.join(wd, "d_%s@heapfill%d" % (names[i], fill)), args=["--list", dlst, "--timeout", "60"], workers=nper, chunk=100, env_extra=env)
+                    C.run_driver(exes[i], "hist", nh, os.path.join(wd, "h_%s@heapfill%d" % (names[i], fill)), args=hargs, workers=nper, env_extra=env)
             return o1, o2
         with ThreadPoolExecutor(4) as ex:
             res = list(ex.map(runcfg, range(len(cfgs))))
@@ -132,8 +154,9 @@ def run(prop, tier):
         for i in range(nh):
             ref = (filtered_log(os.path.join(outs[base][0], "case_%d.log" % i)), sha(os.path.join(outs[base][0], "final_%d.json" % i)), sha(os.path.join(outs[base][0], "final_%d.c3d" % i)))
             compared["history"] += 1
-            for n in names[1:]:
-                cur = (filtered_log(os.path.join(outs[n][0], "case_%d.log" % i)), sha(os.path.join(outs[n][0], "final_%d.json" % i)), sha(os.path.join(outs[n][0], "final_%d.c3d" % i)))
+            for n in names[1:] + ["%s@heapfill%d" % (base, f) for f in HEAPFILLS]:
+                hd = outs[n][0] if n in outs else os.path.join(wd, "h_" + n)
+                cur = (filtered_log(os.path.join(hd, "case_%d.log" % i)), sha(os.path.join(hd, "final_%d.json" % i)), sha(os.path.join(hd, "final_%d.c3d" % i)))
                 if cur != ref:
                     what = "event_log" if cur[0] != ref[0] else "final_snapshot" if cur[1] != ref[1] else "saved_bytes"
                     first = ""
@@ -145,7 +168,7 @@ def run(prop, tier):
                         else:
                             first = "log lengths %d / %d" % (len(ref[0]), len(cur[0]))
                     viols.append(dict(prop="C19", key="config_dependent/history/" + what, detail="history %d: %s vs %s differ in %s %s" % (i, base, n, what, first), case=i,
-                                      log=os.path.join(outs[n][0], "case_%d.log" % i), workload=dict(args=hargs)))
+                                      log=os.path.join(hd, "case_%d.log" % i), workload=dict(args=hargs)))
                     break
         for i in range(len(allfiles)):
             ref = (filtered_log(os.path.join(outs[base][1], "case_%d.log" % i)), sha(os.path.join(outs[base][1], "snap_%d.json" % i)), sha(os.path.join(outs[base][1], "resave_%d.c3d" % i)))
@@ -186,10 +209,10 @@ def run(prop, tier):
                 for x in l:
                     if x.startswith("RES"):
                         t = x.split()
-                        after_eof = any(y.startswith("afterFail=") and y != "afterFail=0" for y in t)
-                        # ok + snapshot digest, or threw + class; the digest only when nothing was read past the end of file
-                        # (what a failed read leaves in the buffer is undefined by the C++ library itself)
-                        out.append(" ".join(t[:3] if (after_eof and t[2] == "ok") else t[:4]))
+                        # ok + snapshot digest, or threw + class.  (Until fix 5023dbd the digest was compared only when nothing had been read
+                        # past the end of the file: a short read left stale heap memory in the buffer.  The buffer is cleared now, so the
+                        # result of EVERY damaged input must be the same in every configuration.)
+                        out.append(" ".join(t[:4]))
                     elif x.startswith("EV"):
                         continue
                     else:
@@ -197,7 +220,7 @@ def run(prop, tier):
                 return out
             ref = outcome(base)
             compared["damaged_input"] += 1
-            for n in [x for x in names[1:] if x != NOGUARD]:
+            for n in [x for x in names[1:] if x != NOGUARD] + ["%s@heapfill%d" % (base, f) for f in HEAPFILLS]:
                 cur = outcome(n)
                 if cur != ref:
                     viols.append(dict(prop="C19", key="config_dependent/damaged_input_outcome", detail="%s: %s gives %s, %s gives %s" % (dspecs[i].split("|", 1)[1], base, ref[-1:], n, cur[-1:]), case=i))
